@@ -46,7 +46,8 @@ func (i *iter) Next(ctx context.Context) (err error) {
 
 	if !i.moved {
 		i.moved = true
-		return nil
+		// the reverse iterator has no lower bound of its own: check the first element too
+		return i.checkBorder()
 	}
 
 	i.count++
